@@ -32,7 +32,8 @@ EXTENDS PipelineDefs
 
 CONSTANTS UseBuilt,      \* TRUE: programs come from IOEnv.BUILT_FILE (extracted from the real build_workflow)
           KindsUsed,     \* subset of Kinds explored by this run
-          LevelsUsed     \* subset of 1..4
+          LevelsUsed,    \* subset of 1..4
+          GSUsed         \* subset of 1..6: which of the representative gate-set classes (GSList) this run explores
 
 Program(kind, level, n) == IF UseBuilt THEN BuiltProg(kind, level, n) ELSE Prog(kind, level, n)
 
@@ -55,7 +56,8 @@ GSList == <<[hasSQ |-> TRUE,  general |-> TRUE,  zx |-> FALSE, allConst |-> FALS
             [hasSQ |-> TRUE,  general |-> FALSE, zx |-> FALSE, allConst |-> FALSE, swapNative |-> FALSE],
             [hasSQ |-> TRUE,  general |-> FALSE, zx |-> FALSE, allConst |-> TRUE,  swapNative |-> FALSE],
             [hasSQ |-> FALSE, general |-> FALSE, zx |-> FALSE, allConst |-> TRUE,  swapNative |-> FALSE]>>
-GSClasses == {GSList[i] : i \in 1..Len(GSList)}
+GSClasses == {GSList[i] : i \in GSUsed}
+ASSUME GSUsed \subseteq 1..Len(GSList) /\ GSUsed # {}
 GSIndex(g) == CHOOSE i \in 1..Len(GSList) : GSList[i] = g
 ASSUME \A g \in GSClasses : g \in GateSets /\ GSConsistent(g)
 Init == /\ kind \in KindsUsed /\ level \in LevelsUsed
